@@ -152,7 +152,8 @@ def record(exe, hists, tag, timeout=600):
             break
         # died in history number len(done)
         k = len(done)
-        crash = {"rc": rc, "history": todo[k] if k < len(todo) else None, "stderr": e[-2500:]}
+        crash = {"rc": rc, "history": todo[k] if k < len(todo) else None,
+                 "stderr": e if len(e) < 5000 else e[:2500] + "\n...\n" + e[-2500:]}
         res.append((path, todo[:k + 1], crash))
         todo = todo[k + 1:]
     return res
@@ -205,7 +206,8 @@ class Symb:
                 self.cache[p] = frames.get(p) or [("?", "?")]
 
     GENERIC = re.compile(r"^(MIR_malloc|MIR_calloc|MIR_realloc|MIR_free|MIR_mem_map|MIR_mem_unmap|MIR_mem_protect|"
-                         r"VARR_.*|HTAB_.*|DLIST_.*|bitmap_.*|reg_malloc|c2mir_calloc)$")
+                         r"VARR_.*|HTAB_.*|DLIST_.*|bitmap_.*|reg_malloc|c2mir_calloc|gen_malloc|gen_free|"
+                         r"__asan_.*|__interceptor_.*|__sanitizer_.*|memcpy|memmove|memset|__mem.*)$")
 
     @staticmethod
     def pcs_of(e):
@@ -777,13 +779,15 @@ def run(tier, hist_override=None, variants=None):
         if not in_scope:
             oos[c["summary"]] += 1
             continue
+        if any(k == key for k, _, _ in ck.violations):
+            continue
         # confirm once (rule 5) before reporting
         again = record(exes[c["variant"]], [c["history"]], "confirm-%s" % c["variant"])
         if again[0][2] is None:
             log("  note: crash of %s [%s] did not repeat; not reported" % (c["history"], c["variant"]))
             continue
         ck.violation(key, "%s [%s]: the harness process died (rc=%s) while running this error-free history under the "
-                     "checking allocators: %s" % (c["history"], c["variant"], c["rc"], (c["stderr"] or "")[-900:]),
+                     "checking allocators: %s" % (c["history"], c["variant"], c["rc"], (c["stderr"] or "")[:1500]),
                      {"history": c["history"], "variant": c["variant"], "key": key})
     for sm, n in sorted(oos.items()):
         log("  note: %d execution(s) ended in a crash / sanitizer report that is outside this property "
@@ -829,7 +833,7 @@ def run(tier, hist_override=None, variants=None):
         "TLC matched %d events in %d runs (%.0f events/s per JVM), %d rejections"
         % (len(H), variants, len(execs), len(discarded), nev, t_rec, V.events_validated, V.tlc_runs,
            V.events_validated / V.tlc_wall if V.tlc_wall else 0, len(V.rejections)))
-    if not good:
+    if not good and not ck.violations:
         raise MachineryError("no execution was recorded")
     return ck.finish()
 
